@@ -93,6 +93,7 @@ def c05(rep, tier):
     r_pair.run_reset(p, rep)
     r_pair.run_interrupt_tags(p, rep)
     r_pair.run_for_else(p, rep)
+    r_pair.run_loop_index(p, rep)
     rep.analysed["config:all"] = {"bodies": len(p.fns)}
 
 
@@ -230,6 +231,7 @@ def c07(rep, tier):
     r_lookup.run_loud(p, rep)
     r_lookup.run_overlay(p, rep)
     r_lookup.run_literal_verbatim(p, rep)
+    r_lookup.run_noclamp(p, rep)
     # literal obligations of parse_literal (shared with C01): grammar facts for every literal conversion
     sub = type(rep)(rep.prop, rep.tier)
     r_panic.run(p, sub, g, "parse")
